@@ -763,6 +763,7 @@ pub fn gen_params(rng: &mut crate::kernel::Rng, idx: u64) -> crate::genr::sam::S
         cram_safe: true,
         all_mapped: false,
         all_unmapped: false,
+        long_read: false,
     }
 }
 
